@@ -38,6 +38,9 @@ type Phase struct {
 	// (C19): executions of one process are then not independent, so the in-process determinism
 	// self-check and the in-process 5x replay are replaced by replays in fresh processes.
 	Stateful bool
+	// NoCrossSection disables the single-process extremes cross-section (phases with Env choices whose
+	// executions are expensive).
+	NoCrossSection bool
 }
 
 // Check is the verification of one property.
@@ -154,6 +157,41 @@ func RunWorker(id, tier string, shard, nshards int, outPath string) error {
 				ex.Explore()
 			}()
 			st = ex.Stats
+		}
+		// cross-section in one process: the executions whose input choices are all the first or the last
+		// element of their alphabet (extreme zooms, first/last index ...) are run again by worker 0 in a
+		// single address space and judged twice, so that state carried between calls with colliding
+		// extreme inputs shows even though the main enumeration is sharded over processes
+		if ph.Body != nil && !ph.Stateful && !ph.Serial && shard == 0 && nshards > 1 && !ph.NoCrossSection {
+			cx := NewExplorer(id, ph.Body, Bounds{EnvDev: 0, InputDev: ph.Bounds.InputDev}, 0, 1, 1)
+			cx.ExtremesOnly = true
+			cx.MaxExec = 3000
+			cx.Repass = 3000
+			cx.selfCheck = 0
+			cx.Deadline = time.Now().Add(60 * time.Second)
+			func() {
+				defer func() {
+					if r := recover(); r != nil {
+						if msg, ok := r.(string); !ok || !strings.HasPrefix(msg, "engine:") {
+							panic(r)
+						}
+					}
+				}()
+				cx.Explore()
+			}()
+			st.Counters["cross_section_executions"] += cx.Stats.Executions
+			st.Counters["cross_section_rejudged"] += cx.Stats.Counters["rejudged_after_history"]
+			for _, v := range cx.Stats.Violations {
+				if v.Detail == nil {
+					v.Detail = map[string]any{}
+				}
+				v.Detail["cross_section"] = "found in the single-process cross-section (extreme inputs only, judged twice)"
+				st.ViolationN++
+				st.SigCounts[v.Sig]++
+				if len(st.Violations) < 60 {
+					st.Violations = append(st.Violations, v)
+				}
+			}
 		}
 		for i := range st.Violations {
 			if st.Violations[i].Detail == nil {
